@@ -228,11 +228,19 @@ def _glyf_bbox(lines):
     return [rx.sub(r"\1", l) if "<TTGlyph " in l else l for l in lines]
 
 
+def _cmap_hdr(lines):
+    """length= / nGroups= on a <cmap_format_N> element describe the encoding (segment and group
+    layout the compiler chooses), not the mapping."""
+    rx = re.compile(r' (length|nGroups)="\d+"')
+    return [rx.sub("", l) if "<cmap_format_" in l else l for l in lines]
+
+
 _MASKS = {   # tag -> (always, only with recalcBBoxes=True)
-    "head": (_drop("checkSumAdjustment"), _head_rb),
+    "cmap": (_cmap_hdr, None),
+    "head": (_drop("checkSumAdjustment", "indexToLocFormat"), _head_rb),
     "OS/2": (_drop("usFirstCharIndex", "usLastCharIndex"), None),
-    "hhea": (None, _drop("advanceWidthMax", "minLeftSideBearing", "minRightSideBearing", "xMaxExtent")),
-    "vhea": (None, _drop("advanceHeightMax", "minTopSideBearing", "minBottomSideBearing", "yMaxExtent")),
+    "hhea": (_drop("numberOfHMetrics"), _drop("advanceWidthMax", "minLeftSideBearing", "minRightSideBearing", "xMaxExtent")),
+    "vhea": (_drop("numberOfVMetrics"), _drop("advanceHeightMax", "minTopSideBearing", "minBottomSideBearing", "yMaxExtent")),
     "maxp": (None, _drop("maxPoints", "maxContours", "maxCompositePoints", "maxCompositeContours",
                          "maxComponentElements", "maxComponentDepth")),
     "glyf": (None, _glyf_bbox),
@@ -361,6 +369,20 @@ def cases(tier, seed):
     for rec in rnd.sample(big, min(len(big), 60 if T else 10)):
         cs.append({"id": "gpos:" + _fid(rec), "group": "gpos", "path": rec["path"], "member": None, "seed": seed,
                    "configs": [[1, 0, False], [0, 0, False], [2, 0, False], [1, 0, True]] + ([[1, 1, False], [1, 2, False]] if T else [])})
+    # foreign-writer encodings: spec-legal encodings fontTools never emits, written by spec-level
+    # writers and spliced in at the sfnt level (vmon/gen/c01_foreign.py)
+    plain = [rec for rec in pool if rec["complete"]]
+    ttplain = [rec for rec in plain if rec["outlines"] == "glyf"]
+    for kind, hosts, nq, nt in (("cmap", plain, 14, 70), ("name", plain, 6, 30), ("hmtx", plain, 8, 40),
+                                ("glyfpad", [r for r in ttplain if "VARC" not in r["tables"]], 6, 30),
+                                ("post", ttplain, 6, 30)):
+        for rec in rnd.sample(hosts, min(len(hosts), nt if T else nq)):
+            r = rnd.randrange(3)
+            cfg = [[0, 0, False], [1, 0, False], [2, 0, False], [r, 1, False], [(r + 1) % 3, 0, True]]
+            if T:
+                cfg += [[(r + 2) % 3, 2, False], [r, 1, True]]
+            cs.append({"id": "foreign:%s:%s" % (kind, _fid(rec)), "group": "foreign", "kind": kind, "path": rec["path"],
+                       "member": None, "seed": seed, "configs": cfg})
     # composite glyphs carrying every preservable component flag and every transform form, written
     # into the binary glyf table by struct-level surgery
     tt = [rec for rec in pool if rec["complete"] and rec["outlines"] == "glyf" and not rec["variable"]
@@ -409,6 +431,55 @@ def _viol_exc(ctx, op, e, st=None, env=None, **extra):
                   dict(info, traceback=traceback.format_exception(type(e), e, e.__traceback__)[-10:]))
 
 
+def _std_names():
+    from fontTools.ttLib.standardGlyphOrder import standardGlyphOrder      # a data table (258 names)
+
+    return list(standardGlyphOrder)
+
+
+def _foreign_source(case, ctx, src, rnd):
+    """Host font with one table (group) re-encoded by a spec-level foreign writer, assembled by the
+    spec-level sfnt writer - fontTools is not involved in producing this input."""
+    import struct
+    from vmon.gen import c01_foreign as FW
+
+    ver, ents = sd.directory(src)
+    tabs = sd.tables(src)
+    kind = case["kind"]
+    try:
+        if kind == "cmap":
+            n = struct.unpack(">H", tabs["maxp"][4:6])[0]
+            base = {}
+            try:
+                subs = FW.read_cmap(tabs["cmap"])
+                for key in sorted(subs, key=lambda k: (k[2] != 12, k[0] != 3)):
+                    if subs[key]:
+                        base = dict(subs[key])
+                        break
+            except Exception:
+                base = {}
+            data, desc = FW.cmap_foreign(rnd, base, n)
+            new = {"cmap": data} if data else None
+        elif kind == "name":
+            data, desc = FW.name_foreign(rnd, tabs["name"])
+            new = {"name": data} if data else None
+        elif kind == "hmtx":
+            new, desc = FW.hmtx_foreign(rnd, tabs)
+        elif kind == "glyfpad":
+            new, desc = FW.glyf_padded(rnd, tabs)
+        else:
+            new, desc = FW.post_foreign(rnd, tabs, _std_names())
+    except (KeyError, struct.error, IndexError) as e:
+        new, desc = None, "host lacks what the writer needs (%s)" % type(e).__name__
+    if not new:
+        ctx.skip("foreign writer not applicable: %s" % desc)
+        raise LibRaised()
+    tabs.update(new)
+    ctx.note("foreign-encoding:" + kind)
+    case["_desc"] = desc
+    return sd.build(ver, tabs)
+
+
 def _source(case, ctx):
     """bytes of the input file F of this case (+ TTC member index)."""
     from fontTools.ttLib import TTFont
@@ -426,6 +497,8 @@ def _source(case, ctx):
         if g == "sfnt":
             return src, None
     rnd = random.Random("%s/%s/src" % (case["id"], case["seed"]))
+    if g == "foreign":
+        return _foreign_source(case, ctx, src, rnd), None
     f = TTFont(io.BytesIO(src), lazy=True, recalcTimestamp=False, recalcBBoxes=False,
                fontNumber=member if member is not None else -1)
     if g in ("woff", "woff2", "plain"):
@@ -789,6 +862,51 @@ def _struct_diff(ctx, orig, new, label):
                 ctx.violation({"kind": "struct-content", "table": mtx},
                               "%s: spec-written reader finds different %s metrics after load+save" % (label, mtx),
                               {"glyph": gid, "original": a[gid:gid + 1], "recompiled": b[gid:gid + 1]})
+    if "cmap" in orig and "cmap" in new and orig["cmap"] != new["cmap"] and not _cmap4_unterminated(orig["cmap"]):
+        from vmon.gen import c01_foreign as FW
+
+        try:
+            ma, mb = FW.read_cmap(orig["cmap"]), FW.read_cmap(new["cmap"])
+        except Exception:
+            ma = None
+        if ma is not None:
+            ctx.judged()
+            ctx.note("struct-level:cmap")
+            keys_a = sorted(k[:2] + k[3:] for k in ma)
+            keys_b = sorted(k[:2] + k[3:] for k in mb)
+            diff = None
+            if keys_a != keys_b:
+                diff = ("subtable list", keys_a, keys_b)
+            else:
+                for k, m in ma.items():
+                    m2 = mb.get(k)
+                    if m is None or m2 is None:
+                        continue
+                    if m != m2:
+                        c = next(c for c in sorted(set(m) | set(m2)) if m.get(c) != m2.get(c))
+                        diff = ("subtable %r" % (k,), {"code": hex(c), "original_gid": m.get(c), "recompiled_gid": m2.get(c)}, None)
+                        break
+            if diff:
+                bad = True
+                ctx.violation({"kind": "struct-content", "table": "cmap", "what": "mapping" if diff[0] != "subtable list" else diff[0]},
+                              "%s: spec-written reader finds a different character map (%s) after load+save" % (label, diff[0]),
+                              {"detail": repr(diff[1:])[:400]})
+    if "post" in orig and "post" in new and orig["post"] != new["post"]:
+        from vmon.gen import c01_foreign as FW
+
+        try:
+            pa, pb = FW.read_post(orig["post"], _std_names()), FW.read_post(new["post"], _std_names())
+        except Exception:
+            pa = pb = None
+        if pa is not None and pb is not None:
+            ctx.judged()
+            ctx.note("struct-level:post")
+            if pa != pb:
+                bad = True
+                gid = next((i for i, (x, y) in enumerate(zip(pa, pb)) if x != y), min(len(pa), len(pb)))
+                ctx.violation({"kind": "struct-content", "table": "post", "what": "glyph names"},
+                              "%s: spec-written reader finds different PostScript glyph names after load+save" % label,
+                              {"glyph": gid, "original": pa[gid:gid + 1], "recompiled": pb[gid:gid + 1]})
     if all(t in orig and t in new for t in ("glyf", "loca", "head", "maxp")) and \
             (orig["glyf"] != new["glyf"] or orig["loca"] != new["loca"]):
         from vmon.gen import c01_glyf as GL
